@@ -8,7 +8,7 @@ from checks.c03 import judge_trace
 from sa.cfg import CFG, walk_shallow
 from sa.common import at_least_one, applicable_cells, fn_construct, terminal_statuses, trace_sig
 from sa.model import AnalysisError, load_program
-from sa.protocol import SUSPEND_FQ, ProtocolModel, is_suspend, is_timed_suspend, wrapper_traces
+from sa.protocol import ABSENT, SUSPEND_FQ, ProtocolModel, is_suspend, is_timed_suspend, wrapper_traces
 from sa.report import Check, main
 from sa.values import NONE, Const, EnumVal, Obj, SeqVal, Sym, TypeRef
 
@@ -94,6 +94,34 @@ def build() -> Check:
                   badn[0][0] + " | " + "; ".join(f"{k}->{v}" for k, v in badn[0][1].pc), cell=st)
         else:
             ck.ob("R1.timed-suspension-lies-in-the-future", f"{ci.module.relpath.split('aws_durable_execution_sdk_python/')[-1]}:{ci.name}", True, "", cell=st)
+
+    # R1 a wait that is found STARTED is running since an earlier point in time: it parks until the time its record says the backend's timer fires - not for
+    # its full duration counted from now (h3_C07 #1: replayed in a re-invocation that another event caused, the branch stays "parked" for minutes after the
+    # wait ended; a sibling's checkpoint brings the completion, and the verdict still says PENDING with nothing registered)
+    n_wait = 0
+    for name, ci, ot, st in applicable_cells(pm):
+        if ot != "WAIT" or st in term or st == ABSENT:
+            continue
+        badw = []
+        for t in pm.run_cell(ci, st, faults=False):
+            if t.outcome != "raise" or not (t.exc_class() or "").endswith("TimedSuspendExecution"):
+                continue
+            n_wait += 1
+            ts_ = getattr(t.value, "fields", {}).get("scheduled_timestamp")
+            recorded = any(k.endswith("wait_details is None") and v is False for k, v in t.pc) or any("scheduled_end_timestamp" in str(k) for k, _v in t.pc)
+            # the target is the recorded end time, or the path compared the recorded end time with the clock (a recorded time that has passed is
+            # treated as "look again now / in a moment" by the suspension helpers)
+            from_record = (ts_ is not None and "scheduled_end_timestamp" in ts_.key()) or any(
+                "scheduled_end_timestamp" in str(k) and not str(k).endswith("is None") and not str(k).endswith("is not None") for k, _v in t.pc)
+            if recorded and not from_record and not any(str(k).endswith("scheduled_end_timestamp is None") and v is True for k, v in t.pc) \
+                    and not any("isinstance" in str(k) and v is False for k, v in t.pc) and not any("tzinfo is not None" in str(k) and v is False for k, v in t.pc):
+                badw.append((f"a wait found {st} whose record carries its end time parks until {ts_.key() if ts_ is not None else '?'}", t))
+            elif not any("scheduled_end_timestamp" in str(k) or "wait_details" in str(k) for k, _v in t.pc):
+                badw.append((f"a wait found {st} parks until {ts_.key() if ts_ is not None else '?'} without looking at the end time its record carries", t))
+        ck.ob("R1.replayed-wait-parks-until-its-recorded-end", f"{ci.module.relpath.split('aws_durable_execution_sdk_python/')[-1]}:{ci.name}", not badw,
+              (badw[0][0] + " - the full duration is counted again from now: replayed early (another event caused the invocation) the branch looks parked long after "
+               "the backend completed the wait, and the invocation answers PENDING with nothing left registered | " + "; ".join(f"{k}->{v}" for k, v in badw[0][1].pc)[:300]) if badw else "", cell=st)
+    ck.floor("replayed_wait_suspensions", n_wait, 1)
 
     # R2 suspend decision --------------------------------------------------------------------------
     cex = prog.cls("concurrency.executor", "ConcurrentExecutor")
